@@ -3,6 +3,7 @@
 #pragma once
 #include "vstl_base.h"
 extern "C" float __verif_nondet_float(float lo, float hi);
+extern "C" void __verif_env_input_f(double v);
 namespace Eigen {
 enum { Lower = 1, Upper = 2 };
 template <class S> struct Triplet { int r_, c_; S v_; Triplet() : r_(0), c_(0), v_(0) {} Triplet(int r, int c, S v) : r_(r), c_(c), v_(v) {} int row() const { return r_; } int col() const { return c_; } S value() const { return v_; } };
@@ -15,7 +16,7 @@ template <class S, int R, int C> struct Matrix {
 };
 template <class M> struct Map;
 template <class S, int R, int C> struct Map<Matrix<S, R, C> > : Matrix<S, R, C> { Map(S* p, long n) { this->n_ = (int)n; this->ext_ = p; } };
-template <class S> struct SparseMatrix { int r_, c_; SparseMatrix(int r, int c) : r_(r), c_(c) {} template <class It> void setFromTriplets(It, It) {} };
+template <class S> struct SparseMatrix { int r_, c_; SparseMatrix(int r, int c) : r_(r), c_(c) {} template <class It> void setFromTriplets(It b, It e) { for (; b != e; ++b) __verif_env_input_f((double)b->value()); } };
 template <class M, int UpLo> struct ConjugateGradient {
   int n_;
   ConjugateGradient() : n_(0) {}
@@ -24,6 +25,7 @@ template <class M, int UpLo> struct ConjugateGradient {
   void setMaxIterations(int) {}
   template <class A, class B> Matrix<float, -1, 1> solveWithGuess(const A& rhs, const B&) {
     Matrix<float, -1, 1> r; r.n_ = rhs.n_;
+    for (int i = 0; i < rhs.n_; ++i) __verif_env_input_f((double)(rhs.ext_ ? rhs.ext_[i] : rhs.d_[i]));
     VCAPREQ(r.n_ <= VCAP);
     for (int i = 0; i < r.n_; ++i) r.d_[i] = __verif_nondet_float(-3.0e38f, 3.0e38f);
     return r;
